@@ -67,6 +67,8 @@ type Contract struct {
 	Invs     []*Clause
 	Asserts  []*Clause
 	Allocs   []string // names of fresh object ids the callee may allocate (usable in ensures / modifies)
+	Resets   []ResetSpec
+	Retains  []string
 	Mods     []Modifies
 	Lets     []LetDef
 	Trusted  bool
@@ -81,7 +83,13 @@ type Contract struct {
 var reHead = regexp.MustCompile(`^(func|iface)\s+(.*)$`)
 var reTagged = regexp.MustCompile(`^(safety|requires|ensures|canary)(\[[A-Za-z0-9!, ]*\])?\s*(.*)$`)
 var reAssert = regexp.MustCompile(`^assert(\[[A-Za-z0-9!, ]*\])?\s+after\s+([A-Za-z_][A-Za-z0-9_]*)\s*:\s*(.*)$`)
-var reAssertSel = regexp.MustCompile(`^assert(\[[A-Za-z0-9!, ]*\])?\s+at\s+select\s+(\d+)\s*:\s*(.*)$`)
+type ResetSpec struct {
+	Param string
+	Tags  []string
+}
+
+var reResets = regexp.MustCompile(`^resets(\[[A-Za-z0-9!, ]*\])?\s+([A-Za-z_][A-Za-z0-9_]*)\s*$`)
+var reAssertSel =regexp.MustCompile(`^assert(\[[A-Za-z0-9!, ]*\])?\s+at\s+select\s+(\d+)\s*:\s*(.*)$`)
 var reLoop = regexp.MustCompile(`^loop\s+(\d+)\s+(invariant|modifies|decreases)(\[[A-Za-z0-9!, ]*\])?\s+(.*)$`)
 
 func parseTags(s string) []string {
@@ -356,6 +364,19 @@ func (cs *ContractSet) loadFile(path string, ext bool) error {
 			lastText = nil
 		case body == "wrapping":
 			cur.Wrapping = true
+			lastText = nil
+		case reResets.MatchString(body):
+			// resets[C18] p            every field of *p equals its zero value on return, except:
+			// retains p.path  reason   fields deliberately kept (capacity, drained queues, ...)
+			m := reResets.FindStringSubmatch(body)
+			cur.Resets = append(cur.Resets, ResetSpec{Param: m[2], Tags: parseTags(m[1])})
+			lastText = nil
+		case strings.HasPrefix(body, "retains "):
+			f := strings.Fields(body[len("retains "):])
+			if len(f) == 0 {
+				return fmt.Errorf("%s:%d: bad retains", path, lineNo)
+			}
+			cur.Retains = append(cur.Retains, f[0])
 			lastText = nil
 		case strings.HasPrefix(body, "modifies "):
 			spec := strings.TrimSpace(body[len("modifies "):])
